@@ -58,9 +58,34 @@ def gen_wb(rng, big=False):
         if t.startswith(("select_one ", "select_multiple ")) and not langs and rng.random() < 0.2:
             row["type"] = t + " or_other"
     qrows = [r for r in rows if r.get("type") and not r["type"].startswith(("begin", "end")) and ("label" in r or any(k.startswith("label::") for k in r))]
-    # mixed unsuffixed + suffixed translations (default_language stays "default": no F39 shape)
-    if not langs and qrows and rng.random() < 0.35:
-        lg = rng.choice(["fr", "French (fr)"])
+    # mixed unsuffixed + suffixed translations; in a third of these the settings name one of the suffix
+    # languages as default_language, so that the unsuffixed column and the column suffixed with the
+    # default language meet in one row ("the suffixed one wins", whatever the column order)
+    if not langs and qrows and rng.random() < 0.4:
+        lg = rng.choice(["fr", "French (fr)", "English"])
+        lg2 = rng.choice([None, None, "de", "Deutsch (de)"])
+        if rng.random() < 0.4:
+            st = form.setdefault("settings", [{}])
+            if not st:
+                st.append({})
+            st[0]["default_language"] = rng.choice([lg, lg, lg2 or lg])
+        for r in [x for x in rows if x.get("type", "").startswith("begin") and "label" in x]:
+            if rng.random() < 0.5:
+                r[f"label::{lg}"] = "G " + gen.adv_text(rng, 2, plain=True)
+        if lg2:
+            for r in qrows:
+                if rng.random() < 0.6:
+                    r[f"label::{lg2}"] = "D " + gen.adv_text(rng, 3, plain=True)
+                if "hint" in r and rng.random() < 0.5:
+                    r[f"hint::{lg2}"] = "DH " + gen.adv_text(rng, 2, plain=True)
+            for c in form.get("choices", []):
+                if rng.random() < 0.6:
+                    c[f"label::{lg2}"] = "DC " + gen.adv_text(rng, 2, plain=True)
+        if rng.random() < 0.3:
+            for r in qrows:
+                if rng.random() < 0.5:
+                    r["guidance_hint"] = "gh " + gen.adv_text(rng, 2, plain=True)
+                    r[f"guidance_hint::{lg}"] = "GH " + gen.adv_text(rng, 2, plain=True)
         for r in qrows:
             if rng.random() < 0.7:
                 r[f"label::{lg}"] = "T " + gen.adv_text(rng, 3, plain=True)
@@ -69,6 +94,21 @@ def gen_wb(rng, big=False):
         for c in form.get("choices", []):
             if rng.random() < 0.7:
                 c[f"label::{lg}"] = "C " + gen.adv_text(rng, 2, plain=True)
+    # choices that trigger row-numbered messages of the choices validator: unlabeled choices (warning),
+    # duplicate names (error unless allow_choice_duplicates)
+    if form.get("choices") and rng.random() < 0.3:
+        for c in form["choices"]:
+            if rng.random() < 0.3:
+                for k in [k for k in c if k.startswith("label")]:
+                    del c[k]
+        if rng.random() < 0.3 and len(form["choices"]) > 1:
+            c = dict(rng.choice(form["choices"]))
+            form["choices"].insert(rng.randint(0, len(form["choices"])), c)
+            if rng.random() < 0.6:
+                st = form.setdefault("settings", [{}])
+                if not st:
+                    st.append({})
+                st[0]["allow_choice_duplicates"] = "yes"
     # media
     if qrows and rng.random() < 0.3:
         col = rng.choice(["image", "media::image", "audio", "media::video", "big-image"])
@@ -127,7 +167,7 @@ ALL_TX = list(spell_tx.TX)
 def pick_tx(rng, channel):
     k = rng.choice([1, 1, 2, 2, 3, 4])
     pool = [t for t in ALL_TX if channel != "dict" or t not in spell_tx.NEEDS_FILE or t == "extra_sheet"]
-    weights = [0.25 if t == "extra_sheet" and channel == "dict" else (0.3 if t == "blank_row" and channel == "md" else 1.0) for t in pool]
+    weights = [0.3 if t == "blank_row" and channel == "md" else 1.0 for t in pool]
     return rng.choices(pool, weights=weights, k=k)
 
 
@@ -161,25 +201,12 @@ def compare(ctx, wb, wb2, labels, channel, tag="meta"):
                 s["rows"] = [s["rows"][i] for i in keep]
                 s["orig"] = [i + 2 for i in range(len(keep))]
             f16 = spell.canon_result(spell.run(wb3, channel), lax) == ca
-        f28 = False
-        if ca["class"] == cb["class"] == "ok" and ca["xform"] == cb["xform"] and any(l.startswith("sheet_case") for l in labels):
-            # F28: the only difference is a misspelling warning about a present, row-less sheet whose name differs in case only
-            wa, wb_ = list(ca["warnings"]), list(cb["warnings"])
-            for w in list(wa):
-                if w in wb_:
-                    wa.remove(w)
-                    wb_.remove(w)
-            empty = {s["name"] for s in wb2["sheets"] if s["name"].lower() in ("settings", "entities")
-                     and s["name"] != s["name"].lower() and not any(v not in (None, "") for r in s["rows"] for v in r)}
-            f28 = not wa and bool(wb_) and all(
-                any(w.startswith(f"When looking for a sheet named '{n.lower()}', the following sheets with similar names were found: '{n}'.") for n in empty)
-                for w in wb_)
         ctx.fail(Failure(
             "not-equivalent",
             f"[{channel}] {' + '.join(labels)}: {detail}",
             case,
             extra={"orig_class": a["class"], "new_class": b["class"], "orig_msg": a.get("msg", ""), "new_msg": b.get("msg", ""),
-                   "site": b.get("site", "") or a.get("site", ""), "labels": labels, "channel": channel, "diff": detail, "f16": f16, "f28": f28},
+                   "site": b.get("site", "") or a.get("site", ""), "labels": labels, "channel": channel, "diff": detail, "f16": f16},
         ))
     ctx.record({"wb": case["wb"], "labels": labels, "channel": channel}, a["ok"] and bool(labels))
     return ca == cb
@@ -354,23 +381,12 @@ def replay(ctx, payload, bs):
     return (len(ctx.failures), len(ctx.mismatches)) == before and not ctx.known_seen
 
 
-def m_f26(f):
-    x = f.extra
-    return (f.kind == "not-equivalent" and x.get("channel") == "dict" and any(l.startswith("extra_sheet") for l in x.get("labels", []))
-            and x.get("orig_class") != "internal" and x.get("new_class") == "internal"
-            and "DefinitionData.__init__() got an unexpected keyword argument" in x.get("new_msg", ""))
-
-
 def m_f16(f):
     x = f.extra
     return f.kind == "not-equivalent" and x.get("channel") == "md" and bool(x.get("f16"))
 
 
-def m_f28(f):
-    return f.kind == "not-equivalent" and bool(f.extra.get("f28"))
-
-
-MATCHERS = {"F28-rowless-sheet-case-misspelling": m_f28, "F26-dict-unrelated-sheet": m_f26, "F16-md-blank-row-dropped": m_f16}
+MATCHERS = {"F16-md-blank-row-dropped": m_f16}
 
 
 def main(argv):
